@@ -40,7 +40,7 @@ pub struct PlanMsg {
 	pub name: String,
 }
 
-fn canon_any(m: Message, ver: u32) -> Option<(u8, String)> {
+pub fn canon_any(m: Message, ver: u32) -> Option<(u8, String)> {
 	if let Some(x) = canon_message(&m, ver) {
 		return Some(x);
 	}
@@ -978,5 +978,335 @@ pub fn emit_channel(cx: &mut Ctx, r: Option<ChanRes>) {
 				&format!("accepted:{};extra:{};received:{};inorder:{};extraseen:{}", r.accepted, if r.extra_ok { "ok" } else { "err" }, r.received.len(), if in_order { 1 } else { 0 }, if r.extra_seen { 1 } else { 0 }),
 			);
 		}
+	}
+}
+
+// ---------------------------------------------------------------------------------------------------
+// every payload kind through the plain Codec at EVERY split point
+
+fn gen_segment_body(rng: &mut Rng, leaf: &dyn Fn(&mut Rng) -> Vec<u8>, nl: u64) -> Vec<u8> {
+	let be64 = |x: u64| x.to_be_bytes();
+	let mut b = rng.bytes(32);
+	b.push(rng.below(14) as u8);
+	b.extend_from_slice(&be64(rng.below(1 << 20)));
+	let nh = 1 + rng.below(2);
+	b.extend_from_slice(&be64(nh));
+	let mut p = 0u64;
+	for _ in 0..nh {
+		p += 1 + rng.below(9);
+		b.extend_from_slice(&be64(p));
+	}
+	for _ in 0..nh {
+		b.extend_from_slice(&rng.bytes(32));
+	}
+	b.extend_from_slice(&be64(nl));
+	let mut p = 0u64;
+	for _ in 0..nl {
+		p += 1 + rng.below(9);
+		b.extend_from_slice(&be64(p));
+	}
+	for _ in 0..nl {
+		b.extend_from_slice(&leaf(rng));
+	}
+	let np = 1 + rng.below(2);
+	b.extend_from_slice(&be64(np));
+	for _ in 0..np {
+		b.extend_from_slice(&rng.bytes(32));
+	}
+	b
+}
+
+/// the canonical serialisation of what `raw` decodes to (None: the real decoder refuses it)
+fn canon_body<T: ser::Readable + Writeable>(raw: &[u8], ver: u32) -> Option<Vec<u8>> {
+	let v: T = ser::deserialize(&mut &raw[..], ProtocolVersion(ver), DeserializationMode::default()).ok()?;
+	Some(sv(&v, ver))
+}
+
+/// small instances of every payload kind (frame <= ~1.4 kB so that every split point is affordable)
+pub fn payload_frames(cx: &mut Ctx, ver: u32) -> Vec<(String, Vec<u8>, Vec<Exp>)> {
+	use grin_p2p::msg::{OutputBitmapSegmentResponse, OutputSegmentResponse, SegmentResponse};
+	let mut out: Vec<(String, Vec<u8>, Vec<Exp>)> = vec![];
+	let mut add = |name: &str, t: Type, body: Vec<u8>| {
+		let mut w = sv(&MsgHeader::new(t, body.len() as u64), ver);
+		w.extend_from_slice(&body);
+		out.push((name.to_string(), w, vec![Exp::Body(t as u8, hex(&body))]));
+	};
+	let h = header_pool(cx, 1).pop().unwrap();
+	add("Header", Type::Header, sv(&h, ver));
+	let b = gen_block(cx, 0, 1);
+	add("Block", Type::Block, sv(&b, ver));
+	let b1 = gen_block(cx, 1, 1);
+	add("Block", Type::Block, sv(&b1, ver));
+	let cb: CompactBlock = gen_block(cx, 0, 2).into();
+	add("CompactBlock", Type::CompactBlock, sv(&cb, ver));
+	let kerns: Vec<TxKernel> = vec![gen_kernel(&mut cx.rng)];
+	let ins: Vec<Input> = (0..2).map(|_| Input::new(OutputFeatures::Plain, rand_commit(&mut cx.rng))).collect();
+	let tx = Transaction::new(Inputs::from(ins.as_slice()), &[], &kerns);
+	// the value as the receiver will hold it (the input representation depends on the version)
+	if let Some(c) = canon_body::<Transaction>(&sv(&tx, ver), ver) {
+		add("Transaction", Type::Transaction, c.clone());
+		add("StemTransaction", Type::StemTransaction, c);
+	}
+	let k = gen_segment_body(&mut cx.rng, &|r| sv(&gen_kernel(r), ver), 2);
+	if let Some(c) = canon_body::<SegmentResponse<TxKernel>>(&k, ver) {
+		add("KernelSegment", Type::KernelSegment, c);
+	}
+	let mut o = gen_segment_body(&mut cx.rng, &|r| { let mut v = vec![r.below(2) as u8]; v.extend_from_slice(&r.bytes(33)); v }, 3);
+	o.extend_from_slice(&cx.rng.bytes(32));
+	if let Some(c) = canon_body::<OutputSegmentResponse>(&o, ver) {
+		add("OutputSegment", Type::OutputSegment, c);
+	}
+	let rp = gen_segment_body(&mut cx.rng, &|r| { let mut v = 675u64.to_be_bytes().to_vec(); v.extend_from_slice(&r.bytes(675)); v }, 1);
+	if let Some(c) = canon_body::<SegmentResponse<RangeProof>>(&rp, ver) {
+		add("RangeProofSegment", Type::RangeProofSegment, c);
+	}
+	// OutputBitmapSegment: block hash, BitmapSegment (identifier, blocks, proof), output root
+	let mut bm = cx.rng.bytes(32);
+	bm.push(9);
+	bm.extend_from_slice(&cx.rng.below(1000).to_be_bytes());
+	bm.extend_from_slice(&1u16.to_be_bytes());
+	// one block of two chunks listing 3 set bits
+	bm.extend_from_slice(&[2u8, 1]);
+	bm.extend_from_slice(&3u16.to_be_bytes());
+	for x in [5u16, 77, 1900] {
+		bm.extend_from_slice(&x.to_be_bytes());
+	}
+	bm.extend_from_slice(&2u64.to_be_bytes());
+	bm.extend_from_slice(&cx.rng.bytes(64));
+	bm.extend_from_slice(&cx.rng.bytes(32));
+	if let Some(c) = canon_body::<OutputBitmapSegmentResponse>(&bm, ver) {
+		add("OutputBitmapSegment", Type::OutputBitmapSegment, c);
+	}
+	out
+}
+
+pub fn payload_every_split(cx: &mut Ctx, work: &std::path::Path) {
+	let vers: Vec<u32> = if cx.thorough { VERSIONS.to_vec() } else { vec![1, 1000] };
+	for &ver in &vers {
+		let frames = payload_frames(cx, ver);
+		let kinds: Vec<String> = frames.iter().map(|f| f.0.clone()).collect();
+		for want in ["Header", "Block", "CompactBlock", "Transaction", "StemTransaction", "KernelSegment", "OutputSegment", "RangeProofSegment", "OutputBitmapSegment"] {
+			if !kinds.iter().any(|k| k == want) {
+				cx.fails += 1;
+				cx.out.raw(&format!("#ORACLE-FAIL C19 payload run: no instance of {} that the real decoder accepts (generator broken)", want));
+			}
+		}
+		let ping = ping_frame(ver, 4711);
+		let ping_exp = Exp::Body(Type::Ping as u8, hex(&ping[11..]));
+		for (name, w, exp) in frames {
+			cx.stat(&format!("payload kind at every split point: {}", name));
+			let mut stream = w.clone();
+			stream.extend_from_slice(&ping);
+			let mut e = exp.clone();
+			e.push(ping_exp.clone());
+			// quick: every split point when the frame is short, else every split point of the header and the
+			// last 40 bytes plus a sample; thorough: every split point up to 1500 bytes
+			let extra: Vec<usize> = (w.len().saturating_sub(20)..w.len() + 12).collect();
+			// quick: version 1000 at every split point; version 1 at every split point for the kinds whose
+			// encoding depends on the version, sampled otherwise
+			let version_dependent = matches!(name.as_str(), "Block" | "Transaction" | "StemTransaction" | "KernelSegment" | "CompactBlock");
+			let dense = (cx.thorough && stream.len() <= 1500) || ((ver == 1000 || version_dependent) && stream.len() <= 1000);
+			deliver_parallel(cx, ver, &stream, &e, &[name.clone(), "Ping".into()], dense, &extra);
+		}
+		if ver != 1000 && !cx.thorough {
+			continue;
+		}
+		// mixed-size Headers (two sizes) + Ping, and an archive with a short attachment + Ping: every split point
+		let hs = sized_headers(cx, &[12, 10]);
+		let canon: Vec<u8> = hs.iter().flat_map(|h| sv(h, ver)).collect();
+		let mut stream = wire(&Msg::new(Type::Headers, Headers { headers: hs }, ProtocolVersion(ver)).unwrap());
+		stream.extend_from_slice(&ping);
+		deliver_parallel(cx, ver, &stream, &[Exp::Headers(2, 0, hex(&canon)), ping_exp.clone()], &["Headers(mixed)".into(), "Ping".into()], true, &[]);
+		for size in [0usize, 1, 200] {
+			let data = cx.rng.bytes(size);
+			let path = work.join(format!("pl-att-{}.bin", cx.rng.next()));
+			std::fs::write(&path, &data).unwrap();
+			let body = TxHashSetArchive { hash: hash32(&mut cx.rng), height: cx.rng.next(), bytes: size as u64 };
+			let canon = hex(&sv(&body, ver));
+			let mut m = Msg::new(Type::TxHashSetArchive, body, ProtocolVersion(ver)).unwrap();
+			m.add_attachment(std::fs::File::open(&path).unwrap());
+			let mut stream = wire(&m);
+			let _ = std::fs::remove_file(&path);
+			stream.extend_from_slice(&ping);
+			let e = vec![Exp::Body(Type::TxHashSetArchive as u8, canon), Exp::Att(size, 0, checksum(&data)), ping_exp.clone()];
+			cx.stat("payload kind at every split point: TxHashSetArchive+attachment");
+			deliver_parallel(cx, ver, &stream, &e, &["TxHashSetArchive+attachment".into(), "Ping".into()], true, &[]);
+		}
+	}
+}
+
+/// as `deliver_plans_at` with `dense`, but the deliveries of one stream run on 8 threads (the largest
+/// allocation request is not looked at here, so the shared counter does not matter)
+fn deliver_parallel(cx: &mut Ctx, ver: u32, stream: &[u8], exp: &[Exp], names: &[String], every: bool, extra: &[usize]) {
+	let mut plans: Vec<Vec<usize>> = vec![vec![]];
+	if every {
+		for p in 1..stream.len() {
+			plans.push(vec![p]);
+		}
+		cx.stat("streams cut at every single split point");
+	} else {
+		for p in (1..12.min(stream.len())).chain(extra.iter().copied().filter(|p| *p > 0 && *p < stream.len())) {
+			plans.push(vec![p]);
+		}
+		for _ in 0..8 {
+			plans.push(vec![1 + cx.rng.below(stream.len() as u64 - 1) as usize]);
+		}
+	}
+	for _ in 0..4 {
+		let k = 2 + cx.rng.below(12) as usize;
+		let mut ps: Vec<usize> = (0..k).map(|_| 1 + cx.rng.below(stream.len() as u64 - 1) as usize).collect();
+		ps.sort_unstable();
+		ps.dedup();
+		plans.push(ps);
+	}
+	if stream.len() <= 300 {
+		plans.push((1..stream.len()).collect());
+		cx.stat("streams delivered byte by byte");
+	}
+	let plans = Arc::new(plans);
+	let stream_a = Arc::new(stream.to_vec());
+	const NT: usize = 8;
+	let handles: Vec<_> = (0..NT)
+		.map(|ti| {
+			let (plans, stream_a) = (plans.clone(), stream_a.clone());
+			std::thread::spawn(move || {
+				global::set_local_chain_type(ChainTypes::AutomatedTesting);
+				let mut out = vec![];
+				let mut i = ti;
+				while i < plans.len() {
+					let frags = split_at_points(&stream_a, &plans[i]);
+					let gaps: Vec<u64> = (0..frags.len()).map(|j| if plans[i].len() <= 1 { 200 } else { (j as u64 * 37) % 900 }).collect();
+					let r = run_codec(ver, &frags, &gaps);
+					out.push((i, frags, r));
+					i += NT;
+				}
+				out
+			})
+		})
+		.collect();
+	let mut all: Vec<(usize, Vec<Vec<u8>>, RunResult)> = handles.into_iter().flat_map(|h| h.join().unwrap_or_default()).collect();
+	all.sort_by_key(|x| x.0);
+	if all.len() != plans.len() {
+		cx.fails += 1;
+		cx.out.raw(&format!("#ORACLE-FAIL C19 payload deliveries panicked: {} of {} done ({:?})", all.len(), plans.len(), names));
+	}
+	for (_, frags, r) in all {
+		if r.got != exp || r.end != "Connection" {
+			cx.fails += 1;
+			cx.out.raw(&format!(
+				"#ORACLE-FAIL C19 sequence read differs from sequence written: version {} messages {:?} fragments {} read {:?} end {}",
+				ver, names, hex_list(&frags).chars().take(600).collect::<String>(), r.got.iter().map(|e| format!("{:?}", e).chars().take(60).collect::<String>()).collect::<Vec<_>>(), r.end
+			));
+		}
+		emit_run(cx, ver, &frags, &r, false);
+	}
+}
+
+// ---------------------------------------------------------------------------------------------------
+// Hand / Shake with user agents of 0 … max … max + 1 bytes, byte by byte and coalesced with a Ping, both directions
+
+pub fn handshake_frag(cx: &mut Ctx) {
+	let g = Hash::from_vec(&[7u8; 32]);
+	let a4 = PeerAddr("127.0.0.1:3414".parse().unwrap());
+	// frame limits 4 x 128 / 4 x 88; fixed parts: Hand 4+4+8+8+7+7+8+32 = 78, Shake 4+4+8+8+32 = 56
+	let (hand_max, shake_max) = (512 - 78, 352 - 56);
+	struct Job {
+		accept: bool,
+		ver: u32,
+		ua: usize,
+		over: bool,
+		frags: Vec<Vec<u8>>,
+		height: u64,
+		mode: &'static str,
+	}
+	let mut jobs = vec![];
+	let vers: Vec<u32> = if cx.thorough { VERSIONS.to_vec() } else { vec![1000, 2] };
+	for accept in [true, false] {
+		let max = if accept { hand_max } else { shake_max };
+		let mut lens = vec![0usize, 1, 63, max - 1, max, max + 1];
+		if cx.thorough {
+			lens.extend_from_slice(&[2, 64, 65, 255, 256, max + 2, max + 100]);
+		}
+		for (li, &ua) in lens.iter().enumerate() {
+			for (mi, mode) in ["bytewise", "coalesced", "bytewise-all"].iter().enumerate() {
+				let ver = vers[(li + mi) % vers.len()];
+				let agent: String = (0..ua).map(|i| (b'a' + (i % 26) as u8) as char).collect();
+				let hs_msg = if accept {
+					wire(&Msg::new(Type::Hand, Hand { version: ProtocolVersion(ver), capabilities: Capabilities::default(), nonce: cx.rng.next(), genesis: g, total_difficulty: Difficulty::from_num(1), sender_addr: a4, receiver_addr: a4, user_agent: agent }, ProtocolVersion(ver)).unwrap())
+				} else {
+					wire(&Msg::new(Type::Shake, Shake { version: ProtocolVersion(ver), capabilities: Capabilities::default(), genesis: g, total_difficulty: Difficulty::from_num(1), user_agent: agent }, ProtocolVersion(ver)).unwrap())
+				};
+				let height = 80_000 + cx.rng.below(10_000);
+				let ping = ping_frame(ver.min(1000), height);
+				let frags: Vec<Vec<u8>> = match *mode {
+					// every byte of the handshake message in a write of its own, the Ping behind the last byte
+					"bytewise" => {
+						let mut f: Vec<Vec<u8>> = hs_msg.iter().map(|b| vec![*b]).collect();
+						f.last_mut().unwrap().extend_from_slice(&ping);
+						f
+					}
+					"coalesced" => {
+						let mut f = hs_msg.clone();
+						f.extend_from_slice(&ping);
+						vec![f]
+					}
+					_ => hs_msg.iter().chain(ping.iter()).map(|b| vec![*b]).collect(),
+				};
+				jobs.push(Job { accept, ver, ua, over: ua > max, frags, height, mode });
+			}
+		}
+	}
+	let now = Utc::now().timestamp();
+	let batch = 8;
+	let mut results: Vec<Option<Result<PeerRes, String>>> = (0..jobs.len()).map(|_| None).collect();
+	let mut start = 0;
+	while start < jobs.len() {
+		let end = (start + batch).min(jobs.len());
+		let hs: Vec<_> = (start..end)
+			.map(|i| {
+				let (accept, ver, over) = (jobs[i].accept, jobs[i].ver, jobs[i].over);
+				let sched: Vec<(u64, Vec<u8>)> = jobs[i].frags.iter().map(|f| (0u64, f.clone())).collect();
+				std::thread::spawn(move || {
+					global::set_local_chain_type(ChainTypes::AutomatedTesting);
+					run_hs_then(accept, ver, &sched, if over { 0 } else { 1 })
+				})
+			})
+			.collect();
+		for (j, h) in hs.into_iter().enumerate() {
+			results[start + j] = h.join().ok();
+		}
+		start = end;
+	}
+	for (i, job) in jobs.iter().enumerate() {
+		let dir = if job.accept { "accept" } else { "connect" };
+		cx.stat(&format!("hsfrag: {} {} user agent of {} bytes{}", dir, job.mode, job.ua, if job.over { " (one over the frame limit)" } else { "" }));
+		let rs = match &results[i] {
+			Some(Ok(r)) => {
+				let mut evs = r.events.clone();
+				evs.push(format!("pongs:{}", r.pongs));
+				evs.push(format!("closed:{}", if r.closed { 1 } else { 0 }));
+				if job.over || r.events != vec![format!("ping:{}", job.height)] || r.pongs != 1 || r.closed || r.version != job.ver.min(1000) {
+					cx.fails += 1;
+					cx.out.raw(&format!(
+						"#ORACLE-FAIL C19 handshake message with a user agent of {} bytes delivered {} ({}, version {}): the node saw {:?}, Pongs {}, closed {}, negotiated version {} (a frame over the limit must be refused: {})",
+						job.ua, job.mode, dir, job.ver, r.events, r.pongs, r.closed, r.version, job.over
+					));
+				}
+				format!("[{}]", evs.join(";"))
+			}
+			Some(Err(e)) => {
+				if !job.over {
+					cx.fails += 1;
+					cx.out.raw(&format!("#ORACLE-FAIL C19 handshake failed although the handshake message is well-formed (user agent of {} bytes, {} {}, version {}): {}", job.ua, dir, job.mode, job.ver, e));
+				}
+				"[handshake-failed]".to_string()
+			}
+			None => {
+				cx.fails += 1;
+				cx.out.raw("#ORACLE-FAIL C19 handshake fragmentation delivery panicked in the harness");
+				"[panic]".to_string()
+			}
+		};
+		cx.out.line(&format!("codec hsthen {} {} {} {}", dir, job.ver.min(1000), now, hex_list(&job.frags)), &rs);
 	}
 }
